@@ -2,7 +2,7 @@
    RG.Ast.* (generic) and Inst_Walker.v (about the walker REGENERATED from /repo on this run). *)
 From Coq Require Import List NArith Bool Arith Lia String.
 From RG.Ast Require Import Tree Walker WalkerProof WalkSpec WfCheck.
-From RGW Require Import Gen_AstSchema Gen_Walker Gen_WalkTables Gen_WalkState Inst_Walker.
+From RGW Require Import Gen_AstSchema Gen_Walker Gen_WalkTags Gen_WalkState Inst_Walker.
 Import ListNotations.
 
 (* For every tree (every nesting of if / else-if chains, init statements, function literals, any depth) and every
